@@ -645,11 +645,51 @@ func (e *engine) doStep(st step) {
 		case <-time.After(10 * time.Second):
 		}
 		tapR.notifySend(nil)
+		// with D: the same request is repeated (same lock id) while the first one is still waiting - a
+		// client that retries after a time-out on its side
+		type dupRes struct {
+			hl     *litefs.HaltLock
+			status int
+			err    error
+		}
+		var dupDone chan dupRes
+		var dupID int64
+		if st.G.D {
+			dupID = tapR.lastHaltID.Load()
+			e.res.Classes[fmt.Sprintf("AcquireRace:repeat-id-known=%v", dupID != 0)]++
+			if dupID != 0 {
+				dupDone = make(chan dupRes, 1)
+				go func() {
+					var d dupRes
+					d.hl, d.status, d.err = w.postHalt(p, w.ids["R"], dupID)
+					dupDone <- d
+				}()
+				time.Sleep(100 * time.Millisecond)
+			}
+		}
 		var r txResult
 		tx := e.lw
 		e.lw = nil
 		pn2, to2 := bounded("local-writer-commit", 60*time.Second, func() { r = w.commitTx(tx) })
 		<-done
+		if dupDone != nil {
+			e.res.Evals++
+			select {
+			case d := <-dupDone:
+				// two requests with one lock id: both are answered with the same lock (or both refused)
+				rl := w.n["R"].Store.DB(w.db).RemoteHaltLock()
+				firstOK, dupOK := err == nil, d.status == 200 && d.hl != nil
+				switch {
+				case firstOK != dupOK:
+					e.fail("C13.same-id-same-lock", fmt.Sprintf("repeated-acquire-while-waiting/first-ok=%v/repeat-ok=%v", firstOK, dupOK), false,
+						map[string]any{"repeat_status": d.status, "repeat_error": fmt.Sprint(d.err), "first_error": fmt.Sprint(err), "repeated": d.hl, "first": rl})
+				case firstOK && rl != nil && (d.hl.ID != rl.ID || d.hl.Pos != rl.Pos):
+					e.fail("C13.same-id-same-lock", "repeated-acquire-while-waiting/different-answer", false, map[string]any{"repeated": d.hl, "first": rl})
+				}
+			case <-time.After(w.o.AcquireTO + 5*time.Second):
+				e.fail("C13.same-id-same-lock", "repeated-acquire-while-waiting/no-answer", true, map[string]any{"lock_id": dupID, "bound": (w.o.AcquireTO + 5*time.Second).String()})
+			}
+		}
 		tapR.reset()
 		if e.callTrouble("local writer commit", pn2, to2) || e.callTrouble("LockWait", pn, to) {
 			return
@@ -1460,6 +1500,10 @@ func directed() []script {
 			mk("Acquire", none), mk("RTx", none), mk("RDie", gArgs{}), mk("Expire", gArgs{N: "P"}), mk("LWBegin", gArgs{}), mk("LWCommit", gArgs{})}},
 		{NoModel: true, Src: "directed/holder-writer-dies-first-then-expiry", H: []step{
 			mk("Acquire", none), mk("RDie", gArgs{Kind: "other-pages"}), mk("Expire", gArgs{N: "P"}), mk("LWBegin", gArgs{}), mk("LWCommit", gArgs{}), mk("LWBegin", gArgs{}), mk("LWCommit", gArgs{})}},
+		// the acquire request is repeated with the same id while the first one still waits for a local writer
+		{NoModel: true, Src: "directed/acquire-repeated-while-waiting", H: []step{
+			mk("LWBegin", gArgs{}), mk("AcquireRace", gArgs{F: "none", D: true}), mk("RTx", none), mk("Release", none), mk("LWBegin", gArgs{}), mk("LWCommit", gArgs{}),
+			mk("Acquire", none), mk("RTx", none), mk("Release", none), mk("LWBegin", gArgs{}), mk("LWCommit", gArgs{})}},
 		{NoModel: true, Src: "directed/lagging-holder", H: []step{
 			mk("Lag", gArgs{}), mk("LWBegin", gArgs{}), mk("LWCommit", gArgs{}), mk("LagWait", gArgs{}), mk("Acquire", none), mk("RTx", none), mk("Release", none)}},
 	}
